@@ -129,8 +129,8 @@ _PURE_METHODS = {'items', 'keys', 'values', 'get', 'startswith', 'endswith', 'lo
 class UserFn:
     """a function of the code under verification that is inlined at its call sites (helper without contract, nested def).
     A nested function reads the variables of its defining function as they are at the call (it must be called from there)."""
-    def __init__(self, fdef, globs, nested):
-        self.fdef, self.globs, self.nested = fdef, globs, nested
+    def __init__(self, fdef, globs, nested, label=None):
+        self.fdef, self.globs, self.nested, self.label = fdef, globs, nested, label or fdef.name
 
 
 class BoundUserFn(Model):
@@ -718,6 +718,15 @@ class Exec:
             sub = st.fork()
             sub.env, sub.ctl, sub.ret = env, None, None
             npc = len(st.pc)
+            # loops of the inlined function may carry invariants of their own: contract['inline_loops'][label][ordinal]
+            ispecs = self.c.get('inline_loops', {}).get(uf.label)
+            if ispecs:
+                for k_, ln_ in enumerate(loops_in_order(fd)):
+                    if k_ in ispecs:
+                        self.loop_id[id(ln_)] = (uf.label, k_)
+            hook = self.c.get('inline_hooks', {}).get(uf.label)
+            if hook:
+                hook(self, sub, bound)
             outs = self.run_block([sub], fd.body)
             for q in outs:
                 if q.ctl not in (None, 'return'):
@@ -1094,7 +1103,10 @@ class Exec:
         k = self.loop_id.get(id(node))
         if k is None:
             raise ContractError(f'loop at line {node.lineno} inside an inlined helper iterates over a symbolic range (needs a contract)')
-        spec = self.c.get('loops', {}).get(k)
+        if isinstance(k, tuple):
+            spec = self.c.get('inline_loops', {}).get(k[0], {}).get(k[1])
+        else:
+            spec = self.c.get('loops', {}).get(k)
         if spec is None:
             raise ContractError(f'loop #{k} (line {node.lineno}) needs an invariant and the contract has none')
         return k, spec
